@@ -106,6 +106,26 @@ pub fn random_enr(rng: &mut Rng) -> (CombinedKey, Enr) {
     } else {
         None
     };
+    // (one record in twelve is as large as a record may be: 300 bytes, or as near as padding gets)
+    if rng.chance(1, 12) {
+        for pad in (0..=220usize).rev() {
+            if let Some(e) = try_make_enr(&key, seq, ip4, ip6, pad) {
+                // (the builder stops a little short of the limit; `insert` goes all the way)
+                let mut best = e;
+                for extra in 1..24usize {
+                    let mut c = best.clone();
+                    if c.insert("zz", &"x".repeat(extra), &key).is_ok() {
+                        if alloy_rlp::encode(&c).len() <= 300 {
+                            best = c;
+                            continue;
+                        }
+                    }
+                    break;
+                }
+                return (key, best);
+            }
+        }
+    }
     let pad = if rng.chance(1, 6) { rng.below(120) as usize } else { 0 };
     let enr = make_enr(&key, seq, ip4, ip6, pad);
     (key, enr)
